@@ -182,6 +182,9 @@ def run(ctx):
                               {"kind": "trace", "fixture": fx.name, "trace": ok[i], "clause": clause})
     finally:
         shutil.rmtree(tmp, ignore_errors=True)
+    if not ctx.quick:      # the composed loop (real script + real command-line programs incl. calculate_scores): this property's clause of it
+        from harness.pipeline import run_e2e
+        run_e2e(ctx, "C06", [(2, ctx.seed), (3, ctx.seed + 1)])
     ctx.exhaustive = True
     ctx.assumptions += ["the conditioning filter may keep any one experiment of a condition class", "argmin ties may resolve to any minimal plate"]
 
